@@ -155,7 +155,7 @@ class RealTimeTradesToBar(event.FifoQueueEventSource, event.Producer):
     async def main(self):
         now = dt.utc_now()
         begin = now - datetime.timedelta(seconds=now.timestamp() % self._bar_duration)
-        end = begin + datetime.timedelta(seconds=self._bar_duration, milliseconds=-1)
+        end = begin + datetime.timedelta(seconds=self._bar_duration, microseconds=-1)
         while True:
             sleep_time = (end - dt.utc_now()).total_seconds() + self._flush_delay
             if sleep_time > 0:
